@@ -118,6 +118,12 @@ def run_cases(prop, P, cases, tag):
             res, errs = core.run_model(outs, prefix, checks)
             for e in errs:
                 findings.append({"case": None, "kind": "runner", "check": "runner", "detail": e})
+            if os.environ.get("VERIF_TIER_EFFECTIVE") == "thorough" and tag == "":
+                # self-check of the evaluation path: recompute a sample of verdicts inside Coq (vm_compute)
+                import crosscheck
+                for e in crosscheck.crosscheck(prop, outs, prefix, checks):
+                    findings.append({"case": None, "kind": "runner", "check": "extraction-crosscheck", "detail": e})
+                stats["vm_compute_crosschecked"] = stats.get("vm_compute_crosschecked", 0) + 10
             for chk in checks:
                 stats["harness_lines"] += len(res[chk])
                 for name, v in res[chk].items():
@@ -284,6 +290,7 @@ def main(argv):
     if "--replay" in argv:
         replay = argv[argv.index("--replay") + 1]
     seed = int(os.environ.get("VERIF_SEED", "0") or 0)
+    os.environ["VERIF_TIER_EFFECTIVE"] = tier
     P = props.PROPS[prop]
     t0 = time.time()
     violations = []          # (replay path, suffix)
